@@ -20,6 +20,9 @@ pub enum Mutation {
     Tail { bytes: Vec<u8> },
     /// overwrite the 8-byte version field
     Version { v: u64 },
+    /// turn a version-3 file into the same data in an older format version:
+    /// drop the 4-byte checksum trailer and set the version field (1 or 2)
+    Downgrade { v: u64 },
     /// recompute the trailing masked CRC-32C over everything before it, so
     /// that verify() finds a matching checksum on otherwise arbitrary bytes
     /// (untrusted data can carry a valid checksum: a CRC is not a MAC)
@@ -78,6 +81,13 @@ pub fn apply(bytes: &mut Vec<u8>, m: &Mutation) {
         }
         Mutation::Version { v } => {
             if bytes.len() >= 8 {
+                bytes[..8].copy_from_slice(&v.to_le_bytes());
+            }
+        }
+        Mutation::Downgrade { v } => {
+            if bytes.len() >= 36 {
+                let n = bytes.len();
+                bytes.truncate(n - 4);
                 bytes[..8].copy_from_slice(&v.to_le_bytes());
             }
         }
@@ -204,8 +214,45 @@ pub fn probe_wrappers(bytes: &[u8]) -> Option<String> {
     r.err().map(|e| format!("Map/Set/Cow path: {}", panic_msg(e)))
 }
 
+/// The same bytes at several misalignments relative to a 16-byte boundary
+/// (a slice into a larger container, an `include_bytes!` static): open +
+/// verify must behave exactly as for the aligned copy. Returns
+/// (verify result per offset, panic message).
+pub fn probe_unaligned(bytes: &[u8]) -> (Vec<Option<bool>>, Option<String>) {
+    let n = bytes.len();
+    let mut buf = vec![0u8; n + 32];
+    let base = buf.as_ptr() as usize;
+    let mut res = Vec::new();
+    for want in [1usize, 5, 8, 15] {
+        // offset such that the slice starts at `want` modulo 16
+        let off = (16 + want - (base % 16)) % 16;
+        buf[off..off + n].copy_from_slice(bytes);
+        let slice = &buf[off..off + n];
+        let r = catch_unwind(AssertUnwindSafe(|| match fst::raw::Fst::new(slice) {
+            Err(_) => None,
+            Ok(f) => Some(f.verify().is_ok()),
+        }));
+        match r {
+            Ok(x) => res.push(x),
+            Err(p) => {
+                return (res, Some(format!("bytes at address = {} mod 16: {}", want, panic_msg(p))));
+            }
+        }
+    }
+    (res, None)
+}
+
 /// C20: nothing panics.
 pub fn check_c20_bytes(bytes: &[u8]) -> Option<Violation> {
+    if bytes.len() >= 4096 {
+        let (_, p) = probe_unaligned(bytes);
+        if let Some(m) = p {
+            return Some(Violation {
+                oracle: "C20.panic_in_open_accessors_or_verify".into(),
+                observed: format!("{} on {} bytes", m, bytes.len()),
+            });
+        }
+    }
     let p = probe(bytes);
     if let Some(m) = p.panic {
         return Some(Violation {
@@ -224,7 +271,7 @@ pub fn check_c20_bytes(bytes: &[u8]) -> Option<Violation> {
 
 /// C08-B: a corrupted artifact is never certified (and nothing panics).
 /// `orig` must be a finished artifact; `bytes` the altered copy.
-pub fn check_c08b_bytes(orig: &[u8], bytes: &[u8]) -> Option<Violation> {
+pub fn check_c08b_bytes(orig: &[u8], bytes: &[u8], deep: bool) -> Option<Violation> {
     if orig == bytes {
         return None; // not a corruption
     }
@@ -234,6 +281,36 @@ pub fn check_c08b_bytes(orig: &[u8], bytes: &[u8]) -> Option<Violation> {
             oracle: "C08.B.panic_on_corrupted_artifact".into(),
             observed: m,
         });
+    }
+    // the second way to put other bytes behind an opened FST: map_data
+    if deep {
+        let r = catch_unwind(AssertUnwindSafe(|| -> bool {
+            match fst::raw::Fst::new(orig.to_vec()) {
+                Err(_) => false,
+                Ok(f) => match f.map_data(|_| bytes.to_vec()) {
+                    Err(_) => false,
+                    Ok(g) => g.verify().is_ok(),
+                },
+            }
+        }));
+        match r {
+            Err(p) => {
+                return Some(Violation {
+                    oracle: "C08.B.panic_on_corrupted_artifact".into(),
+                    observed: format!("through map_data: {}", panic_msg(p)),
+                })
+            }
+            Ok(true) => {
+                return Some(Violation {
+                    oracle: "C08.B.corruption_certified_as_valid".into(),
+                    observed: format!(
+                        "artifact of {} bytes: map_data onto an altered copy succeeds and verify() returns Ok",
+                        orig.len()
+                    ),
+                })
+            }
+            Ok(false) => {}
+        }
     }
     if p.opened && p.verify_ok == Some(true) {
         let n = std::cmp::min(orig.len(), bytes.len());
